@@ -32,27 +32,26 @@ open AGV Spec
   sound caches see `Props/C05Cached.lean`);
 * `UniqueIds`, `NoZeroWidth`: node ids identify nodes; siblings have non-empty ordered ranges
   (then the cursor walks of `next_all`/`prev_all` are the positional sibling lists);
-* `SmallFanout`: fewer than `2^31 - 1` children per node (`(index + 1) as i32` is exact);
 * `n` is a node of the document — any node, the root included.
 Conclusion: a normal outcome of the evaluator from **any** environment is the reference
 verdict, at every reference fuel `f' ≥ f`. -/
 theorem rule_ref_equiv (ctx : RCtx) (hctx : CtxVarFree ctx) (hu : Tree.UniqueIds ctx.root)
-    (hz : NoZeroWidth ctx.root) (hfan : SmallFanout ctx.root)
+    (hz : NoZeroWidth ctx.root)
     (r : Rule) (hr : r.varFree = true) (n : Tree) (hn : n ∈ ctx.root.preorder)
     (f : Nat) (env : Env) (res : Option Tree) (env' : Env)
     (h : matchRule ctx f r n env = .ok (res, env')) (f' : Nat) (hf : f ≤ f') :
     sat ctx f' r n = res.isSome :=
-  (all_rr ctx (RefHyp.of ctx hctx hu hz hfan) f).1 r n env res env' hr hn h f' hf
+  (all_rr ctx (RefHyp.of ctx hctx hu hz) f).1 r n env res env' hr hn h f' hf
 
 /-- the same as an equivalence, from the empty environment -/
 theorem rule_ref_equiv_iff (ctx : RCtx) (hctx : CtxVarFree ctx) (hu : Tree.UniqueIds ctx.root)
-    (hz : NoZeroWidth ctx.root) (hfan : SmallFanout ctx.root)
+    (hz : NoZeroWidth ctx.root)
     (r : Rule) (hr : r.varFree = true) (n : Tree) (hn : n ∈ ctx.root.preorder)
     (f : Nat) (x : Option Tree × Env) (h : matchRule ctx f r n Env.empty = .ok x)
     (f' : Nat) (hf : f ≤ f') :
     (∃ m env', matchRule ctx f r n Env.empty = .ok (some m, env')) ↔ sat ctx f' r n = true := by
   obtain ⟨res, env'⟩ := x
-  have := rule_ref_equiv ctx hctx hu hz hfan r hr n hn f Env.empty res env' h f' hf
+  have := rule_ref_equiv ctx hctx hu hz r hr n hn f Env.empty res env' h f' hf
   rw [this, h]
   constructor
   · rintro ⟨m, e, he⟩
@@ -68,22 +67,22 @@ theorem rule_ref_equiv_iff (ctx : RCtx) (hctx : CtxVarFree ctx) (hu : Tree.Uniqu
 (`= satAnyNode` without `field`), `findMapUntil ↔ takeThrough`, `stopByFind ↔ satCandidates`,
 `hasUntil ↔ satBelow` with a stop rule, `matchHas ↔ satBelow`, `matchCore ↔ sat` of its rule -/
 theorem helpers_ref_equiv (ctx : RCtx) (hctx : CtxVarFree ctx) (hu : Tree.UniqueIds ctx.root)
-    (hz : NoZeroWidth ctx.root) (hfan : SmallFanout ctx.root) (f : Nat) :
+    (hz : NoZeroWidth ctx.root) (f : Nat) :
     RAll ctx f ∧ RAny ctx f ∧ RFilter ctx f ∧ RFinder ctx f ∧ RFindMap ctx f ∧
     RUntil ctx f ∧ RStopBy ctx f ∧ RInside ctx f ∧ RHasUntil ctx f ∧ REnd ctx f ∧ RHas ctx f ∧
     RCore ctx f :=
-  (all_rr ctx (RefHyp.of ctx hctx hu hz hfan) f).2
+  (all_rr ctx (RefHyp.of ctx hctx hu hz) f).2
 
 /-- `env_irrelevant` (verdict part): two normal runs of a var-free rule on the same node, from
 any two environments and with any two fuels, agree -/
 theorem env_irrelevant (ctx : RCtx) (hctx : CtxVarFree ctx) (hu : Tree.UniqueIds ctx.root)
-    (hz : NoZeroWidth ctx.root) (hfan : SmallFanout ctx.root)
+    (hz : NoZeroWidth ctx.root)
     (r : Rule) (hr : r.varFree = true) (n : Tree) (hn : n ∈ ctx.root.preorder)
     (f₁ f₂ : Nat) (env₁ env₂ : Env) (res₁ res₂ : Option Tree) (e₁ e₂ : Env)
     (h₁ : matchRule ctx f₁ r n env₁ = .ok (res₁, e₁))
     (h₂ : matchRule ctx f₂ r n env₂ = .ok (res₂, e₂)) : res₁.isSome = res₂.isSome := by
-  rw [← rule_ref_equiv ctx hctx hu hz hfan r hr n hn f₁ env₁ res₁ e₁ h₁ (max f₁ f₂) (Nat.le_max_left _ _),
-    ← rule_ref_equiv ctx hctx hu hz hfan r hr n hn f₂ env₂ res₂ e₂ h₂ (max f₁ f₂) (Nat.le_max_right _ _)]
+  rw [← rule_ref_equiv ctx hctx hu hz r hr n hn f₁ env₁ res₁ e₁ h₁ (max f₁ f₂) (Nat.le_max_left _ _),
+    ← rule_ref_equiv ctx hctx hu hz r hr n hn f₂ env₂ res₂ e₂ h₂ (max f₁ f₂) (Nat.le_max_right _ _)]
 
 /-- a capture-free pattern gives the same verdict from every environment and leaves it alone -/
 theorem pattern_env_irrelevant (s : Strictness) (src : Bytes) (f : Nat) (p : PNode) (c : Tree)
@@ -112,7 +111,7 @@ write in the caller's environment. -/
 the rule's variables (e.g. the empty one).  Besides the verdict: the run touches nothing but the
 rule's own variables and the `secondary` label. -/
 theorem rule_ref_equiv_vars (ctx : RCtx) (hctx : CtxVarFree ctx) (hu : Tree.UniqueIds ctx.root)
-    (hz : NoZeroWidth ctx.root) (hfan : SmallFanout ctx.root)
+    (hz : NoZeroWidth ctx.root)
     (r : Rule) (hr : r.varDisjoint = true) (n : Tree) (hn : n ∈ ctx.root.preorder)
     (f : Nat) (env : Env)
     (hfresh : ∀ v ∈ r.vars, alookup v env.single = none ∧ alookup v env.multi = none)
@@ -120,17 +119,17 @@ theorem rule_ref_equiv_vars (ctx : RCtx) (hctx : CtxVarFree ctx) (hu : Tree.Uniq
     (∀ f', f ≤ f' → sat ctx f' r n = res.isSome) ∧
     (∀ v, v ∉ r.vars → alookup v env'.single = alookup v env.single ∧
       (v ≠ secondaryLabel → alookup v env'.multi = alookup v env.multi)) :=
-  (all_d ctx (RefHyp.of ctx hctx hu hz hfan) f).1 r n env res env' hr hn hfresh h
+  (all_d ctx (RefHyp.of ctx hctx hu hz) f).1 r n env res env' hr hn hfresh h
 
 /-- from the empty environment, as an equivalence -/
 theorem rule_ref_equiv_vars_iff (ctx : RCtx) (hctx : CtxVarFree ctx) (hu : Tree.UniqueIds ctx.root)
-    (hz : NoZeroWidth ctx.root) (hfan : SmallFanout ctx.root)
+    (hz : NoZeroWidth ctx.root)
     (r : Rule) (hr : r.varDisjoint = true) (n : Tree) (hn : n ∈ ctx.root.preorder)
     (f : Nat) (x : Option Tree × Env) (h : matchRule ctx f r n Env.empty = .ok x)
     (f' : Nat) (hf : f ≤ f') :
     (∃ m env', matchRule ctx f r n Env.empty = .ok (some m, env')) ↔ sat ctx f' r n = true := by
   obtain ⟨res, env'⟩ := x
-  have := (rule_ref_equiv_vars ctx hctx hu hz hfan r hr n hn f Env.empty
+  have := (rule_ref_equiv_vars ctx hctx hu hz r hr n hn f Env.empty
     (fun v _ => ⟨rfl, rfl⟩) res env' h).1 f' hf
   rw [this, h]
   constructor
@@ -150,14 +149,14 @@ theorem varFree_is_varDisjoint (r : Rule) (h : r.varFree = true) :
 /-- `env_irrelevant` (environment part): a capture-free rule hands the caller's environment
 back untouched except for the `secondary` label -/
 theorem env_irrelevant_env (ctx : RCtx) (hctx : CtxVarFree ctx) (hu : Tree.UniqueIds ctx.root)
-    (hz : NoZeroWidth ctx.root) (hfan : SmallFanout ctx.root)
+    (hz : NoZeroWidth ctx.root)
     (r : Rule) (hr : r.varFree = true) (n : Tree) (hn : n ∈ ctx.root.preorder)
     (f : Nat) (env : Env) (res : Option Tree) (env' : Env)
     (h : matchRule ctx f r n env = .ok (res, env')) (v : Name) :
     alookup v env'.single = alookup v env.single ∧
     (v ≠ secondaryLabel → alookup v env'.multi = alookup v env.multi) := by
   obtain ⟨hd, hvars⟩ := Rule.varDisjoint_of_varFree r hr
-  have := (rule_ref_equiv_vars ctx hctx hu hz hfan r hd n hn f env
+  have := (rule_ref_equiv_vars ctx hctx hu hz r hd n hn f env
     (by rw [hvars]; intro v hv; cases hv) res env' h).2 v
   rw [hvars] at this
   exact this (by simp)
@@ -194,7 +193,9 @@ theorem next_prev_heads (root n : Tree) :
     nextOf root n = (laterSiblings root n).head? ∧ prevOf root n = (earlierSiblings root n).head? :=
   ⟨nextOf_eq_head root n, prevOf_eq_head root n⟩
 
-/-- the `An+B` test: without overflow the `i32` computation is the mathematical one -/
+/-- (pinned code) the `An+B` test: without overflow the `i32` computation is the mathematical
+one.  The current code computes in `i64` and the evaluator model uses the total `isMatched`
+(`C20.isMatchedI64_exact`), so `rule_ref_equiv` needs no fan-out hypothesis any more. -/
 theorem isMatchedI32_exact (a b : Int) (i : Nat) (x : Bool) (hi : i + 1 < 2 ^ 31)
     (h : isMatchedI32 a b i = some x) : x = isMatched a b i :=
   isMatchedI32_some a b i x hi h
@@ -212,14 +213,14 @@ theorem stopBy_inclusive (p : Tree → Bool) (l : List Tree) :
 /-- `deserialize_conjunction`: a rule object with several keys is the `all` of its parts, and for
 var-free parts the verdict does not depend on their order -/
 theorem all_permutation (ctx : RCtx) (hctx : CtxVarFree ctx) (hu : Tree.UniqueIds ctx.root)
-    (hz : NoZeroWidth ctx.root) (hfan : SmallFanout ctx.root)
+    (hz : NoZeroWidth ctx.root)
     (rs rs' : List Rule) (hperm : rs'.Perm rs) (hv : ∀ r ∈ rs, r.varFree = true)
     (n : Tree) (hn : n ∈ ctx.root.preorder) (f₁ f₂ : Nat) (env₁ env₂ : Env)
     (res₁ res₂ : Option Tree) (e₁ e₂ : Env)
     (h₁ : matchRule ctx f₁ (.all rs none) n env₁ = .ok (res₁, e₁))
     (h₂ : matchRule ctx f₂ (.all rs' none) n env₂ = .ok (res₂, e₂)) :
     res₁.isSome = res₂.isSome := by
-  have hyp := RefHyp.of ctx hctx hu hz hfan
+  have hyp := RefHyp.of ctx hctx hu hz
   have hv1 := varFreeList_of_mem hv
   have hv2 := varFreeList_of_mem (fun r hr => hv r (hperm.mem_iff.1 hr))
   cases f₁ with
@@ -299,7 +300,7 @@ theorem nthChild_ofRule_relation_counts_sibling :
     sat ctx 12 (.nthChild 0 1 (some (.has (.kind 5) .neighbor none)) false) d1 = true := by
   refine ⟨?_, ?_⟩
   · simp [matchRule, ctx, parent_d1, filterMapRule, matchHas, findMapRule, finderStep, withLabel,
-      Tree.children, Tree.kind, Tree.info, Tree.named, indexById, Tree.id, isMatchedI32, inI32]
+      Tree.children, Tree.kind, Tree.info, Tree.named, indexById, Tree.id, isMatched]
   · simp [sat, ctx, parent_d1, satBelow, Tree.children, Tree.kind, Tree.info, Tree.named,
       positionIn, indexById, Tree.id, isMatched]
 
@@ -387,8 +388,8 @@ theorem zero_width_counterexample :
 
 example : CtxVarFree ctx := ⟨fun id r h => by simp [ctx, alookup] at h,
   fun id core h => by simp [ctx, alookup] at h⟩
-example : Tree.UniqueIds ctx.root ∧ NoZeroWidth ctx.root ∧ SmallFanout ctx.root := by
-  refine ⟨?_, ?_, ?_⟩ <;> decide
+example : Tree.UniqueIds ctx.root ∧ NoZeroWidth ctx.root := by
+  refine ⟨?_, ?_⟩ <;> decide
 theorem d1_inDoc : d1 ∈ ctx.root.preorder := by
   simp [ctx, Tree.preorder, Tree.preorderList]
 
@@ -410,14 +411,14 @@ theorem sample_run : matchRule ctx 20 sample d1 Env.empty
     = .ok (some d1, ⟨[], [(secondaryLabel, [g, doc])], []⟩) := by
   simp [sample, matchRule, allLoop, kindsGate, matchHas, hasUntil, withLabel, stopByFind,
     findMapRule, finderStep, matchInside, filterMapRule, ctx, parent_d1, prev_d1, anc_d1,
-    Tree.children, Tree.kind, Tree.info, Tree.named, indexById, Tree.id, isMatchedI32, inI32]
+    Tree.children, Tree.kind, Tree.info, Tree.named, indexById, Tree.id, isMatched]
   rfl
 
 /-- … and so does the reference (as `rule_ref_equiv` says it must) -/
 example : sat ctx 20 sample d1 = true := by
   have h := sample_run
   have := rule_ref_equiv ctx ⟨fun id r h => by simp [ctx, alookup] at h,
-      fun id core h => by simp [ctx, alookup] at h⟩ (by decide) (by decide) (by decide)
+      fun id core h => by simp [ctx, alookup] at h⟩ (by decide) (by decide)
     sample (by simp [sample, Rule.varFree, Rule.varFreeList, StopBy.varFree])
     d1 d1_inDoc 20 Env.empty (some d1) _ h 20 (Nat.le_refl _)
   simpa using this
